@@ -19,22 +19,15 @@ theorem run_sha256 (env : Prog.Env) (b : Bytes) : Prog.run env (Att.sha256 b) = 
   simp only [Prog.run_bind, Prog.run_query]
   cases env.answer (.sha256 b) <;> rfl
 
-/-- what `json.Unmarshal` into the client data answers, as an option -/
-def clientDataOf (env : Prog.Env) (raw : Bytes) : Option ClientData :=
-  match env.answer (.clientData raw) with
-  | .clientData c => some c
-  | _ => none
+/-- what `json.Unmarshal` into the client data returns, as an option: the Lean model of encoding/json (`Model/Json`);
+    the environment is not consulted -/
+def clientDataOf (_env : Prog.Env) (raw : Bytes) : Option ClientData := Json.clientData raw
 
 theorem run_askClientData (env : Prog.Env) (raw : Bytes) :
-    Prog.run env (askClientData raw) = clientDataOf env raw := by
-  unfold askClientData clientDataOf
-  simp only [Prog.run_bind, Prog.run_query]
-  cases env.answer (.clientData raw) <;> rfl
+    Prog.run env (askClientData raw) = clientDataOf env raw := rfl
 
 theorem clientDataOf_eq_some (env : Prog.Env) (raw : Bytes) (cd : ClientData) :
-    clientDataOf env raw = some cd ↔ env.answer (.clientData raw) = .clientData cd := by
-  unfold clientDataOf
-  cases env.answer (.clientData raw) <;> simp
+    clientDataOf env raw = some cd ↔ Json.clientData raw = some cd := Iff.rfl
 
 theorem run_ite {α : Type} (env : Prog.Env) (c : Prop) [Decidable c] (p q : Prog α) :
     Prog.run env (if c then p else q) = if c then Prog.run env p else Prog.run env q := by
@@ -185,14 +178,14 @@ theorem afterAuthData_ok (env : Prog.Env) (rp : RP) (o : RequestOptions) (a : As
 theorem afterGet_ok (env : Prog.Env) (rp : RP) (o : RequestOptions) (a : Assertion) (cred : Credential) (c : Credential) :
     (afterGet env rp o a cred).result = .ok c ↔
       c = cred ∧ a.userHandle = cred.owner ∧
-      (∃ cd, env.answer (.clientData a.clientDataJSON) = .clientData cd ∧
+      (∃ cd, Json.clientData a.clientDataJSON = some cd ∧
         cd.type = Spec.str "webauthn.get" ∧ cd.challenge = B64.encode o.challenge ∧ Spec.OriginOK env cd.origin rp.origin) ∧
       (∃ ad rest, unmarshalAuthData a.authenticatorData = some (ad, rest) ∧ ad.rpIdHash = Spec.sha256 env rp.id ∧
         Spec.bit ad.flags 0 = true ∧ (o.userVerification = Spec.str "required" → Spec.bit ad.flags 2 = true)) ∧
       Spec.SigOK env cred.publicKey (a.authenticatorData ++ Spec.sha256 env a.clientDataJSON) a.signature := by
-  unfold afterGet
-  simp only [ite_err, ← clientDataOf_eq_some, ← origin_iff]
-  cases hcd : clientDataOf env a.clientDataJSON with
+  unfold afterGet clientDataOf
+  simp only [ite_err, ← origin_iff]
+  cases hcd : Json.clientData a.clientDataJSON with
   | none => simp
   | some cd =>
     simp only [ite_err]
@@ -338,7 +331,7 @@ theorem auth_reject_bad_signature (env : Prog.Env) (rp : RP) (o : RequestOptions
 
 theorem auth_reject_bad_client_data (env : Prog.Env) (rp : RP) (o : RequestOptions) (a : Assertion)
     (get : Bytes → GetOutcome)
-    (h : ¬ ∃ cd, env.answer (.clientData a.clientDataJSON) = .clientData cd ∧ cd.type = Spec.str "webauthn.get" ∧
+    (h : ¬ ∃ cd, Json.clientData a.clientDataJSON = some cd ∧ cd.type = Spec.str "webauthn.get" ∧
           cd.challenge = B64.encode o.challenge ∧ Spec.OriginOK env cd.origin rp.origin) :
     ∀ c, (Prog.run env (verifyAuthentication rp o a get)).result ≠ .ok c := by
   intro c hc
@@ -391,23 +384,30 @@ theorem auth_depends_on_get_rawId (env : Prog.Env) (rp : RP) (o : RequestOptions
 def exEnv : Prog.Env :=
   ⟨fun q => match q with
     | .sha256 _ => .bytes (List.replicate 32 7)
-    | .clientData _ => .clientData ⟨Spec.str "webauthn.get", B64.encode [], Spec.str "https://h"⟩
     | .sigVerify .. => .bool true
     | _ => .none⟩
 def exRP : RP := ⟨Spec.str "https://h", Spec.str "h"⟩
 
 /-- the example's origin really parses to the host the example intends -/
 theorem ex_host : Url.hostOf (Spec.str "https://h") = some (Spec.str "h") := by decide +kernel
-def exOpts : RequestOptions := ⟨[], [], []⟩
+def exOpts : RequestOptions := ⟨[1, 2, 3], [], []⟩
 def exCred : Credential := ⟨[1], [], Cose.marshal (.okp (List.replicate 32 1))⟩
-def exAssertion : Assertion := ⟨[1], [], List.replicate 32 7 ++ [0x01, 0, 0, 0, 0], [], []⟩
+/-- the client data of the example: a real JSON document; its challenge member is base64url of the options' challenge -/
+def exClientDataJSON : Bytes :=
+  Bytes.ofString "{\"type\":\"webauthn.get\",\"challenge\":\"AQID\",\"origin\":\"https://h\"}"
+def exAssertion : Assertion := ⟨[1], exClientDataJSON, List.replicate 32 7 ++ [0x01, 0, 0, 0, 0], [], []⟩
+
+/-- `encoding/json` (the Lean model) decodes the example's client data to the intended three members -/
+theorem ex_clientData :
+    Json.clientData exClientDataJSON = some ⟨Spec.str "webauthn.get", B64.encode exOpts.challenge, Spec.str "https://h"⟩ := by
+  decide +kernel
 def exGet : Bytes → GetOutcome := fun _ => .found exCred
 
 theorem ex_authOK : Spec.AuthOK exEnv exRP exOpts exAssertion exGet exCred where
   allowed := Or.inl rfl
   stored := rfl
   owner := rfl
-  clientData := ⟨_, rfl, rfl, rfl, Spec.str "h", Spec.str "h", ex_host, ex_host, by decide +kernel, Or.inl rfl⟩
+  clientData := ⟨_, ex_clientData, rfl, rfl, Spec.str "h", Spec.str "h", ex_host, ex_host, by decide +kernel, Or.inl rfl⟩
   authData := ⟨⟨List.replicate 32 7, 1, 0, none, []⟩, [], by decide, rfl, by decide,
     fun h => absurd h (by decide +kernel)⟩
   signature := ⟨.okp (List.replicate 32 1), [], C11.marshal_parse_roundtrip_okp _ List.length_replicate, .eddsa, 0, rfl, rfl⟩
